@@ -35,6 +35,8 @@ type EnvOpt struct {
 	// WrapDB, when set, wraps the database handed to the chain (fault and
 	// crash injection). Env.RawDB stays the real ffldb handle.
 	WrapDB func(database.DB) database.DB
+	// Checkpoints are caller-defined checkpoints (blockchain.Config.Checkpoints).
+	Checkpoints []chaincfg.Checkpoint
 	// BlockFileSize, when non-zero, is the maximum block file size of the
 	// database (small values force file roll-over and make pruning reachable).
 	BlockFileSize uint32
@@ -85,6 +87,7 @@ func (e *Env) newChain() error {
 		DB: e.DB, ChainParams: e.Params, TimeSource: e.Clock,
 		UtxoCacheMaxSize: e.Opt.UtxoCacheMaxSize, Prune: e.Opt.Prune,
 		SigCache: e.Opt.SigCache, HashCache: e.Opt.HashCache, IndexManager: e.Opt.IndexManager,
+		Checkpoints: e.Opt.Checkpoints,
 	})
 	if err != nil {
 		return fmt.Errorf("blockchain.New: %w", err)
@@ -144,6 +147,12 @@ func (e *Env) CloseKeep() {
 // Deliver hands the block of a node to ProcessBlock.
 func (e *Env) Deliver(n *Node) (mainChain, orphan bool, err error) {
 	return e.Chain.ProcessBlock(n.Block(), blockchain.BFNone)
+}
+
+// DeliverHeaderOpt hands the header to ProcessBlockHeader with the given checkpoint handling.
+func (e *Env) DeliverHeaderOpt(n *Node, skipCheckpoint bool) (bool, error) {
+	h := n.Msg.Header
+	return e.Chain.ProcessBlockHeader(&h, blockchain.BFNone, skipCheckpoint)
 }
 
 // DeliverHeader hands only the header of a node to ProcessBlockHeader.
